@@ -339,6 +339,24 @@ fn programs(tier: Tier) -> Vec<Program> {
         let mut ue = base("UE");
         ue.members = vec![Member { attrs: vec![], decl: "Only".into(), inner: Some(vec![field("x: u8")]) }];
         shape(o, "single data-carrying variant without tag", ue);
+        // brace variants without any field (an empty field list is still "named data")
+        let empty = |name: &str| Member { attrs: vec![], decl: name.into(), inner: Some(vec![]) };
+        let mut ue = base("UE");
+        ue.members = vec![empty("E0"), Member { attrs: vec![], decl: "C".into(), inner: Some(vec![field("x: u8")]) }];
+        shape(o, "enum without tag whose first brace variant has no field", ue);
+        let mut ue = base("UE");
+        ue.members.push(empty("E0"));
+        shape(o, "enum without tag with a field-less brace variant", ue);
+        let mut ue = base("UE");
+        ue.members = vec![empty("Only")];
+        shape(o, "single field-less brace variant without tag", ue);
+        let mut ue = base("UE");
+        ue.members = vec![Member { attrs: vec![], decl: "C".into(), inner: Some(vec![field("x: u8")]) }, empty("E0"), field("A")];
+        shape(o, "enum without tag: data variant, field-less brace variant, unit variant", ue);
+        let mut te = base("TE");
+        te.members.insert(0, empty("E0"));
+        te.members.push(field("C(i32)"));
+        shape(o, "variant with unnamed data after a field-less brace variant (tagged)", te);
     }
 
     // ----- container level -----
@@ -579,6 +597,19 @@ fn clean_programs() -> Vec<Program> {
         let mut it = base("CE");
         it.members.push(field("T(#[deserr(default)] u8)"));
         out.push(Program { cause: "valid tuple variant under container from".into(), level: "valid", placement: "plain".into(), item: it });
+    }
+    // field-less brace shapes are valid where named data is
+    {
+        let empty = |name: &str| Member { attrs: vec![], decl: name.into(), inner: Some(vec![]) };
+        let mut te = base("TE");
+        te.members.insert(0, empty("E0"));
+        out.push(Program { cause: "valid tagged enum whose first brace variant has no field".into(), level: "valid", placement: "plain".into(), item: te });
+        let mut te = base("TE");
+        te.members = vec![empty("Only")];
+        out.push(Program { cause: "valid tagged enum with a single field-less brace variant".into(), level: "valid", placement: "plain".into(), item: te });
+        let mut s0 = base("S1");
+        s0.members = vec![];
+        out.push(Program { cause: "valid struct without fields".into(), level: "valid", placement: "plain".into(), item: s0 });
     }
     let mut add = |name: &str, pos: Pos, args: &[&str]| {
         let b = base(name);
